@@ -262,6 +262,7 @@ def correspondence(rng, tier):
     mism += xm['mismatches']; steps += xm['steps']
     groups += xm['groups']; gmeta += xm['gmeta']
     t_py = time.time() - t_start
+    dist['known_class_hits'] = dict(G.KNOWN_HITS, **dist.get('known_class_hits', {}))
     values, errors = run_groups('C09', HEADER % xm.get('imports', ''), groups)
     dist['seconds_python_side'] = round(t_py, 1); dist['seconds_coq_side'] = round(time.time() - t_start - t_py, 1)
     for e in errors:
@@ -364,10 +365,11 @@ def xml_check_cell(ar, tags, o, base_obs, k):
         out = P.dumps_xml(ar, **G.xml_kwargs(o))
     except Exception as ex:
         return {'why': 'dump-raised', 'detail': '%s: %s' % (type(ex).__name__, str(ex)[:150])}
+    na = any(b > 127 for b in out) if isinstance(out, bytes) else any(ord(c) > 127 for c in out)
     try:
         doc = etree.fromstring(xml_bytes(out))
     except Exception as ex:
-        return {'why': 'not-well-formed', 'detail': str(ex)[:150]}
+        return {'why': 'not-well-formed', 'detail': str(ex)[:150], 'nonascii_bytes': na}
     if not V['xsd'].validate(doc):
         return {'why': 'schema', 'detail': str(V['xsd'].error_log)[:300]}
     try:
@@ -380,7 +382,7 @@ def xml_check_cell(ar, tags, o, base_obs, k):
     for how in ('loads', 'file', 'name'):
         obs = load_xml_observed(out, tags, k, how)
         if isinstance(obs, str) or obs != base_obs:
-            return {'why': 'reload', 'loader': how, 'outcome': str(obs)[:200]}
+            return {'why': 'reload', 'loader': how, 'outcome': str(obs)[:200], 'nonascii_bytes': na}
     return None
 
 def write_sequence(ar, tags, order, orig_obs, k, refs):
@@ -457,7 +459,8 @@ def xml_correspondence(rng, tier, dist, samples):
     mism = []; steps = 0; covered = set()
     dist.update({'xml_archives': 0, 'xml_documents': 0, 'xml_options_covered': 0, 'sequences': 0,
                  'xml_finite_dof_above_1e5': 0})
-    ncell = len(G.XML_GRID)
+    ncell = len(G.XML_GRID); grid_start = rng.randrange(ncell)
+    assert math.gcd(97, ncell) == 1
     for ai in range(n_arch):
         ctx = rng.choice([7, 11, rng.getrandbits(127) + 1]); aseed = rng.getrandbits(48)
         labels = G.XML_INTL_LABELS if aseed % 2 else G.XML_SAFE_LABELS
@@ -474,12 +477,16 @@ def xml_correspondence(rng, tier, dist, samples):
             mism.append(dict(info, kind='dump_xml-differs-from-dumps_xml'))
         if ai < 1: samples.append({'desc': desc, 'xml': base_out[:300].decode('utf-8', 'replace')})
         for j in range(per):
-            oi = (ai * per + j) % ncell
+            oi = (grid_start + (ai * per + j) * 97) % ncell      # 97 is coprime to the grid size: encodings mix evenly
             o = G.XML_GRID[oi]; covered.add(oi)
             dist['xml_documents'] += 1; steps += 1
             r = xml_check_cell(ar, tags, o, orig_obs, 700 + ai)
             if r is not None and not is_known(dict(info, options=o, **r)):
                 mism.append(dict(info, kind='xml-' + r['why'], options=o, **r))
+            elif r is not None:
+                h = dist.setdefault('known_class_hits', {})
+                key = 'C09-7' if G.xml_expected_failure(o, r['why'], bool(r.get('nonascii_bytes'))) else 'other-known'
+                h[key] = h.get(key, 0) + 1
         # the same Archive object written in several formats in sequence, both orders (twins from the same seed)
         refs = {}
         for order in SEQUENCES:
@@ -537,6 +544,9 @@ def is_known(f):
     o = f.get('options') or {}
     if f.get('format') == 'xml' and f.get('why') == 'not-well-formed' and o.get('encoding') in (None, 'us-ascii') \
        and isinstance(o.get('prefix'), str) and any(ord(c) > 127 for c in o['prefix']):
+        return True
+    # C09-7: encodings the reader cannot decode / alias spellings in the declaration / 8-bit without declaration
+    if f.get('format') == 'xml' and G.xml_expected_failure(o, f.get('why'), bool(f.get('nonascii_bytes'))):
         return True
     # C09-5: an intermediate result with zero uncertainty has dof nan: 'nan' in XML, NaN in JSON
     if f.get('why') == 'schema' and "'nan' is not a valid value" in str(f.get('detail')):
@@ -620,6 +630,39 @@ def kf_xml_prefix_encoding():
     except ValueError:
         return False, 'prefix refused'
     return False, 'well-formed'
+
+def kf_xml_encodings():
+    """one input per sub-class of C09-7; reproduces = all three still fail"""
+    from GTC import persistence as P
+    from lxml import etree
+    def cell(enc, decl):
+        ar = _simple_archive(label='\u00b5m')
+        o = dict(indent=None, prefix=None, encoding=enc, xml_declaration=decl, short_empty_elements=True)
+        r = xml_check_cell(ar, ['x'], o, _obs_simple(), 8)
+        return r is not None and G.xml_expected_failure(o, r['why'], bool(r.get('nonascii_bytes'))), r
+    a, ra = cell('utf-16-le', None)        # (i) valid document, loads_xml raises ValueError
+    b, rb = cell('utf8', None)             # (ii) declaration says encoding='utf8': loads_xml raises ParseError
+    c, rc = cell('iso-8859-1', False)      # (iii) no declaration, byte 0xB5: not well-formed
+    return (a and b and c), 'utf-16-le: %s; utf8: %s; iso-8859-1 without declaration: %s' % (
+        (ra or {}).get('outcome', ra and ra.get('why')), (rb or {}).get('outcome', rb and rb.get('why')), (rc or {}).get('why'))
+
+def _obs_simple():
+    from GTC import core
+    new_context(7)
+    return observe_objs({'x': core.ureal(1.5, 0.25, 4, label='\u00b5m')})
+
+def kf_add_self():
+    """Archive.add(self=x): the tag 'self' cannot be passed as a keyword argument; item assignment works"""
+    from GTC import core, archive as garchive
+    new_context(7)
+    x = core.ureal(1.5, 0.25, 4)
+    ar = garchive.Archive()
+    try:
+        ar.add(**{'self': x})
+    except TypeError as ex:
+        ar['self'] = x
+        return "multiple values for argument 'self'" in str(ex), str(ex)[:100]
+    return False, 'accepted'
 
 def kf_xml_label_chars():
     """a label with a character outside the XML Char production (e.g. \\x0b) yields ill-formed XML"""
